@@ -1,15 +1,18 @@
 (* AdaptersProofs.v — consequences of the invariants of the callback-adapter model (AdaptersInv.v, AdaptersStep*.v). *)
-From Cocls Require Import Base BaseProofs AdaptersDefs AdaptersInv AdaptersStep0 AdaptersStep1 AdaptersStep2 AdaptersLog AdaptersWeight.
+From Cocls Require Import Base BaseProofs AdaptersDefs AdaptersInv AdaptersStep0A AdaptersStep0B AdaptersStep0C AdaptersStep1A AdaptersStep1B AdaptersStep1C AdaptersStep2A AdaptersStep2B AdaptersStep2C AdaptersLog AdaptersWeight.
 Require Import ZifyBool.
 Local Open Scope nat_scope.
 
 Lemma inv_step c s i : Inv c s -> enabled s i = true -> Inv c (fst (tstep c s i)).
 Proof.
-  intros I E. destruct i as [|[|[|i]]].
-  - apply inv_step0; assumption.
-  - apply inv_step1; assumption.
-  - apply inv_step2; assumption.
-  - unfold enabled in E. cbn [thr] in E. discriminate.
+  intros I E. unfold tstep.
+  destruct i as [|[|[|i]]]; cbn [thr]; [| | |unfold enabled in E; cbn [thr] in E; discriminate].
+  - destruct (th0 s) as [|ins rest] eqn:T; [unfold enabled in E; cbn [thr] in E; rewrite T in E; discriminate|].
+    destruct (groups_cover ins) as [G|[G|G]]; [apply inv_step0A|apply inv_step0B|apply inv_step0C]; assumption.
+  - destruct (th1 s) as [|ins rest] eqn:T; [unfold enabled in E; cbn [thr] in E; rewrite T in E; discriminate|].
+    destruct (groups_cover ins) as [G|[G|G]]; [apply inv_step1A|apply inv_step1B|apply inv_step1C]; assumption.
+  - destruct (th2 s) as [|ins rest] eqn:T; [unfold enabled in E; cbn [thr] in E; rewrite T in E; discriminate|].
+    destruct (groups_cover ins) as [G|[G|G]]; [apply inv_step2A|apply inv_step2B|apply inv_step2C]; assumption.
 Qed.
 
 Theorem inv_reachable c s : valid c = true -> reachable c s -> Inv c s.
